@@ -202,7 +202,7 @@ func genRequesters(t *kernel.Tape) (rs []*requester) {
 			}
 		}
 		rq.conf = &filter.ConfigClient{
-			Custom:   &filter.ConfigCustom{ID: rq.name, UpdateTime: time.Date(2000, 1, 1, 0, 0, 0, 0, time.UTC)},
+			Custom: &filter.ConfigCustom{ID: rq.name, UpdateTime: time.Date(2000, 1, 1, 0, 0, 0, 0, time.UTC)},
 			Parental: &filter.ConfigParental{
 				Enabled: t.Chance(1, 2, "parental"), AdultBlockingEnabled: true, SafeSearchGeneralEnabled: t.Chance(2, 3, "safe-search"),
 			},
@@ -495,7 +495,6 @@ func runC12Concurrent(s *kernel.Sim, w *c12World, rs []*requester) {
 		s.Failf("C12/stuck", "filter storage deadlocked", "stuck")
 	}
 }
-
 
 // runC12ConcurrentQueries: requesters with different configurations ask the
 // same hosts at the same time, no list changes.  Every answer must be the one
